@@ -747,10 +747,25 @@ func (st *State) storeScanResult(ptr SVal, sliceT *types.Slice, res *SliceV) {
 func (st *State) applyUpdate(pre *HeapView, b *entBuilder) {
 	t := b.Table
 	sel := func(x *Term) *Term { return st.selFormula(pre, b, x) }
-	for _, s := range b.Sets {
+	for _, s := range st.effSets(b) {
 		s := s
 		c := t.ByName[s.Col]
 		switch s.Op {
+		case "sym":
+			isSet, isClr, isAdd := Eq(s.OpT, IntLit(1)), Eq(s.OpT, IntLit(2)), Eq(s.OpT, IntLit(3))
+			numeric := c.Sort == SInt && c.Slice == nil
+			st.heapUpdateQ(tblKey(t.Name, s.Col), ArrS(SInt, c.Sort), false, func(x, old *Term) *Term {
+				nv := Ite(isSet, s.Val, old)
+				if numeric {
+					nv = Ite(isSet, s.Val, Ite(isAdd, Add(old, s.Val), old))
+				}
+				return Ite(sel(x), nv, old)
+			})
+			if c.Nullable {
+				st.heapUpdateQ(tblNull(t.Name, s.Col), ArrS(SInt, SBool), false, func(x, old *Term) *Term {
+					return Ite(sel(x), Ite(isSet, TFalse, Ite(isClr, TTrue, old)), old)
+				})
+			}
 		case "set", "setif":
 			val := s.Val
 			if val.Sort != c.Sort {
@@ -821,7 +836,7 @@ func (st *State) hookRejectUpdate(pre *HeapView, h *EntH, results *types.Tuple, 
 		return
 	}
 	touches := false
-	for _, s := range b.Sets {
+	for _, s := range st.effSets(b) {
 		if s.Col == "live" || s.Col == "deleted_at" {
 			touches = true
 		}
@@ -836,8 +851,13 @@ func (st *State) hookRejectUpdate(pre *HeapView, h *EntH, results *types.Tuple, 
 	liveNull := st2.colNull(pre, t, "live", x)
 	liveVal := st2.colGet(pre, t, "live", x)
 	delNull := st2.colNull(pre, t, "deleted_at", x)
-	for _, s := range b2.Sets {
+	for _, s := range st2.effSets(b2) {
 		switch {
+		case s.Col == "live" && s.Op == "sym":
+			liveNull = Ite(Eq(s.OpT, IntLit(1)), TFalse, Ite(Eq(s.OpT, IntLit(2)), TTrue, liveNull))
+			liveVal = Ite(Eq(s.OpT, IntLit(1)), s.Val, liveVal)
+		case s.Col == "deleted_at" && s.Op == "sym":
+			delNull = Ite(Eq(s.OpT, IntLit(1)), TFalse, Ite(Eq(s.OpT, IntLit(2)), TTrue, delNull))
 		case s.Col == "live" && s.Op == "clear":
 			liveNull = TTrue
 		case s.Col == "live" && s.Op == "set":
